@@ -1,10 +1,10 @@
 SPECIFICATION Spec
 CONSTANTS
   NW = 2
-  Family = "collect-quick"
-  PeerCounts = {1}
-  MaxChanges = 2
-  Faithful = FALSE
+  Family = "collect-full"
+  PeerCounts = {1, 2}
+  MaxChanges = 1
+  Faithful = TRUE
   ShareIdentical = TRUE
   CachedDecide = TRUE
   AtomicReload = TRUE
